@@ -32,4 +32,12 @@ def verdict (line : String) : String :=
 def closeRaceHandle (line : String) : String :=
   if line.startsWith "closerace" then "panics=0" else "bad-op"
 
+/-- Close of the dual sweeping-provider wrapper: it returns only when both providers have been closed (`early=0`), and
+    reports an error iff one of them did -/
+def dualCloseHandle (line : String) : String :=
+  if line.startsWith "dualclose" then
+    let kv := C09.kvOf (words line)
+    s!"early=0 err={if kv "wanfail" == "1" || kv "lanfail" == "1" then 1 else 0}"
+  else "bad-op"
+
 end KadDHT.Driver.C14
